@@ -300,24 +300,33 @@ pub fn gen_script(rng: &mut Rng, max_acts: usize, crashes: bool) -> Script {
             continue;
         }
         let ring = rng.usize_below(nrings);
-        match rng.below(100) {
-            0..=39 => {
+        let full = sq_len[ring] >= depths[ring];
+        let roll = if full && rng.chance(0.8) {
+            // queue full: mostly submit, sometimes push anyway (PushError path)
+            50
+        } else {
+            rng.below(100)
+        };
+        match roll {
+            0..=41 => {
                 let ud = next_ud;
                 next_ud += 1;
                 let kind = gen_kind(rng, nfiles, &known);
-                known.push(ud);
-                sq_len[ring] = (sq_len[ring] + 1).min(depths[ring]);
-                let flag = match rng.below(20) {
+                if !full {
+                    known.push(ud);
+                    sq_len[ring] += 1;
+                }
+                let flag = match rng.below(25) {
                     0 => 1,
                     1 => *rng.pick(&[2u8, 3, 4, 5, 6]),
                     _ => 0,
                 };
                 acts.push(RAct::Push { ring, ud, kind, flag });
             }
-            40..=44 => {
+            42..=43 => {
                 burst = Some((ring, depths[ring] + rng.range(0, 2) as u32));
             }
-            45..=62 => {
+            44..=62 => {
                 sq_len[ring] = 0;
                 acts.push(RAct::Submit { ring });
             }
@@ -332,7 +341,7 @@ pub fn gen_script(rng: &mut Rng, max_acts: usize, crashes: bool) -> Script {
                 };
                 acts.push(RAct::Advance { ns });
             }
-            77..=92 => {
+            77..=93 => {
                 let max = if rng.chance(0.6) {
                     None
                 } else {
@@ -340,20 +349,20 @@ pub fn gen_script(rng: &mut Rng, max_acts: usize, crashes: bool) -> Script {
                 };
                 acts.push(RAct::Drain { ring, max });
             }
-            93..=94 => acts.push(RAct::CloseFile {
+            94 => acts.push(RAct::CloseFile {
                 file: rng.usize_below(nfiles),
             }),
             95 => acts.push(RAct::ReopenFile {
                 file: rng.usize_below(nfiles),
             }),
-            96..=97 => acts.push(RAct::StdWrite {
+            96..=98 => acts.push(RAct::StdWrite {
                 file: rng.usize_below(nfiles),
                 off: rng.below(12),
                 n: rng.range(1, 8) as u32,
                 key: rng.below(26) as u8,
             }),
             _ => {
-                if crashes {
+                if crashes && rng.chance(0.7) {
                     acts.push(RAct::Crash);
                     sq_len.iter_mut().for_each(|x| *x = 0);
                 }
